@@ -61,9 +61,7 @@ def generate(ctx):
     # empty and non-empty directories next to names that extend theirs with a byte below '/' (git sorts a
     # directory as if its name ended in '/', whether it is empty or not), at the top and one level down
     twins = D((b"logs", D()), (b"logs.txt", F(5)), (b"logs-old", D()), (b"logs 1", F(6)), (b"logs+", D((b"k", F(7)))),
-              (b"sub", D((b"x", D()), (b"x.c", F(8)), (b"x-", D()), (b"x", D()))), (b"sub.d", F(9)))
-    twins["entries"] = [e for i, e in enumerate(twins["entries"])]
-    twins["entries"][5][1]["entries"] = twins["entries"][5][1]["entries"][:3]
+              (b"sub", D((b"x", D()), (b"x.c", F(8)), (b"x-", D()))), (b"sub.d", F(9)))
     for rel, sl in ((True, 0), (False, 1)):
         cases.append({"tree": twins, "slashes": sl, "relative": rel, "listing_seed": rng.randrange(2**31), "git": False})
     # ... and under names a shell (not the library, not the command) would expand
